@@ -239,10 +239,10 @@ def pipeline_property_violation(case, out):
         rescue = "GRescued" in mt
         cut = Fraction(rec["cutoffs"][-1][1]) if (rescue and rec["cutoffs"]) else None
         for r in rows:
-            infos = next((inf for inf, _ in reversed(rec["scores"]) if any(i[1] == r["best"] for i in inf)), None)
-            if infos is None:
-                continue
-            want = [len({i[1] for i in infos if (cut is None or Fraction(i[0]) <= cut) and p in i[2]}) for p in r["ids"].split(";")]
-            if want != list(r["counts"]):
+            ids = r["ids"].split(";")
+            cands = [inf for inf, v in rec["scores"] if Fraction(v) == Fraction(r["score"]) and any(i[1] == r["best"] for i in inf)
+                     and set(ids) <= {p for i in inf for p in i[2]} | set(ids if not inf else [])]
+            wants = {tuple(len({i[1] for i in inf if (cut is None or Fraction(i[0]) <= cut) and p in i[2]}) for p in ids) for inf in cands}
+            if len(wants) == 1 and list(next(iter(wants))) != list(r["counts"]):
                 return "peptide-counts-not-judged-against-the-cutoff-of-the-reported-grouping"
     return None
